@@ -151,7 +151,7 @@ def local_combination_goals(S, sa, d, f, tag, out_len=1, interp=True):
         S.prove(ok, tag + ':public-call-reproduces-F-at-interior-area-grid-points')
 
 
-def run_es(S, d, lmin, lmax, box, boundary, version, nrbe, auto, single_dim, pool, cap, f, after_round=None):
+def run_es(S, d, lmin, lmax, box, boundary, version, nrbe, auto, single_dim, pool, cap, f, after_round=None, reevaluate=False):
     sa, op, grid, a, b = make_es(S, f, d, box, boundary, version, nrbe, auto, single_dim, pool)
     orig_refine = sa.refine
 
@@ -162,7 +162,7 @@ def run_es(S, d, lmin, lmax, box, boundary, version, nrbe, auto, single_dim, poo
         return r
 
     sa.refine = observed_refine
-    res = sa.performSpatiallyAdaptiv(lmin, lmax, None, tol=-1.0, max_evaluations=cap, print_output=False)
+    res = sa.performSpatiallyAdaptiv(lmin, lmax, None, tol=-1.0, max_evaluations=cap, print_output=False, reevaluate_at_end=reevaluate)
     return sa, op, a, b, res
 
 
